@@ -400,6 +400,208 @@ theorem C03_get_set_agg_map_list_semantics (st : Store) (s : Nat) (k : Nat) :
     · simp [hb, Agent.setAttr, Agent.attr]
     · simp only [hb, if_false] at hmem
 
+/-! ## review round: every parameter combination of `select`, first occurrences, what `set` leaves alone -/
+
+/-- **`select` with every combination of its parameters is one specification**: whatever `filter_func` (given or not),
+    `agent_type` (given or not: `isinstance`, so subclasses qualify) and `at_most` (infinite, an int, or the count derived
+    from a fraction), the selected members are the members that pass both tests, in order — all of them without a limit,
+    the first `k` with one — including the early-return combination (no filter, no type, no limit: every member).
+    `isinstance` on the harness hierarchy is reflexive and transitive. -/
+theorem C03_select_every_parameter_combination (st : Store) (l : List Nat) (pred : Option Pred) (ty : Option Nat)
+    (am : AtMost) :
+    let keep := fun i => (match pred with | some p => p.eval (st.agent i) | none => true) &&
+                         (match ty with | some c => isInst (st.agent i).ty c | none => true)
+    selectIds st l pred ty am = (match am with | .inf => l.filter keep | .count k => (l.filter keep).take k) ∧
+    (∀ t, isInst t t = true) ∧ (∀ a b c, isInst a b = true → isInst b c = true → isInst a c = true) := by
+  refine ⟨?_, fun t => by simp [isInst], fun a b c h1 h2 => ?_⟩
+  · cases am with
+    | count k => cases pred <;> cases ty <;> simp [selectIds, selectGo_some]
+    | inf =>
+      cases pred <;> cases ty <;> simp [selectIds, selectGo_none] <;>
+        exact (List.filter_eq_self.mpr (fun _ _ => rfl)).symm
+  · simp only [isInst, Bool.or_eq_true, Bool.and_eq_true, beq_iff_eq] at h1 h2 ⊢
+    omega
+
+/-- `AgentSet(agents)` keeps the **first** occurrence of every agent, in order (`dict` insertion order): the head of the
+    iterable stays in front, its later copies are dropped, and so on down the iterable — that is `List.eraseDups`. -/
+theorem C03_constructor_keeps_first_occurrences {α : Type} [DecidableEq α] (l : List α) :
+    dedup l = l.eraseDups ∧ ∀ (a : α) (rest : List α), dedup (a :: rest) = a :: dedup (rest.filter (fun b => !b == a)) :=
+  ⟨dedup_eq_eraseDups l, fun a rest => dedup_cons a rest⟩
+
+/-- `set(attr, value)` writes the one attribute of the members and nothing else: an agent outside the set is left exactly
+    as it was; a member gets the value, keeps every other attribute, its identity and its class. -/
+theorem C03_set_writes_members_only (st : Store) (s : Nat) (k : Nat) (v : Int) (j : Nat) (a : Agent)
+    (ha : st.pop[j]? = some a) :
+    ∃ a', (setAttr st s k v).pop[j]? = some a' ∧
+      (a.id ∉ st.get s → a' = a) ∧
+      (a.id ∈ st.get s → a'.attr k = some v ∧ (∀ k', k' ≠ k → a'.attr k' = a.attr k') ∧ a'.id = a.id ∧ a'.ty = a.ty) := by
+  refine ⟨if a.id ∈ st.get s then a.setAttr k v else a, by simp [setAttr, ha], fun h => by simp [h], fun h => ?_⟩
+  simp only [h, if_true]
+  exact ⟨by simp [Agent.setAttr, Agent.attr], fun k' hk => setAttr_attr_other a k k' v hk, rfl, rfl⟩
+
+/-- **The in-place and the copying code path build the same set.**  In the code the copying form ends in
+    `AgentSet(result, random)` and the in-place form in `self._update(result)` (`shuffle`: `self._agents.data = {…}`): both push
+    the result through the same dict comprehension, i.e. through the constructor's de-duplication; the early return of
+    `select` is `self` versus `copy.copy(self)` (= `__setstate__` → `_update(list(keys))`).  On every result the methods
+    build from a duplicate-free set that de-duplication is the identity — so the list the model stores for either flag
+    (`Store.put`) is exactly what either path of the code builds, order included. -/
+theorem C03_both_code_paths_build_the_same_set (st : Store) (h : st.WF) (s : Nat) :
+    dedup (st.get s) = st.get s ∧
+    (∀ pred ty am, dedup (selectIds st (st.get s) pred ty am) = selectIds st (st.get s) pred ty am) ∧
+    (∀ (key : Nat → Int) asc, dedup (sortL key asc (st.get s)) = sortL key asc (st.get s)) ∧
+    dedup (Rng.shuffle (st.get s) st.rng).1 = (Rng.shuffle (st.get s) st.rng).1 ∧
+    (∀ (key : Nat → Int), ∀ g ∈ groupBy key (st.get s), dedup g.2 = g.2) := by
+  have hn := Store.get_nodup h s
+  refine ⟨dedup_of_nodup hn, fun pred ty am => dedup_of_nodup (hn.sublist (selectIds_sublist st _ pred ty am)),
+    fun key asc => dedup_of_nodup ((sortL_perm key asc _).nodup_iff.mpr hn),
+    dedup_of_nodup ((Rng.shuffle_nodup _ _).mpr hn), fun key g hg => ?_⟩
+  rw [((C03_groupby_partitions_in_order key (st.get s)).2.1 g hg).1]
+  exact dedup_of_nodup (hn.sublist List.filter_sublist)
+
+/-- agents are named by their position in the population (what the harness and the driver do) -/
+def Store.IdsArePositions (st : Store) : Prop := ∀ (i : Nat) (a : Agent), st.pop[i]? = some a → a.id = i
+
+private theorem applyOp_pop_ids (st : Store) (op : SOp) : (applyOp st op).pop.map (·.id) = st.pop.map (·.id) := by
+  cases op with
+  | setAttr s' k' v' => exact ((C03_get_set_agg_map_list_semantics st s' k').2.2 v').1
+  | mk ids => simp [applyOp, mk, put_pop]
+  | select s' p t a i => simp [applyOp, select, put_pop]
+  | shuffle s' i => simp [applyOp, shuffle, put_pop]
+  | sort s' key asc i =>
+    cases hk : keysOf st key (st.get s') with
+    | none => simp [applyOp, sort, hk]
+    | some ks => simp [applyOp, sort, hk, put_pop]
+  | group s' key b =>
+    cases hk : keysOf st key (st.get s') with
+    | none => simp [applyOp, group, hk]
+    | some ks => cases b <;> simp [applyOp, group, hk]
+  | add s' a => simp [applyOp, add]
+  | discard s' a => simp [applyOp, discard]
+  | remove s' a =>
+    by_cases hm : a ∈ st.get s'
+    · simp [applyOp, remove, hm, discard]
+    · simp [applyOp, remove, hm]
+  | setop o s' x => simp [applyOp, setop, put_pop]
+  | isetop o s' x => simp [applyOp, isetop]
+  | pop s' =>
+    cases hl : st.get s' with
+    | nil => simp [applyOp, pop, hl, popL]
+    | cons a rest => simp [applyOp, pop, hl, popL]
+  | clear s' => simp [applyOp, clear]
+  | kill a => simp [applyOp, kill]
+
+/-- **`set` then `get` reads the value back** (review M21: reads go by position, writes by id — they meet because ids *are*
+    positions, an invariant of every history): after `set(k, v)` on a set whose members belong to the population, `get(k)` on
+    that set returns `v` for every member (and never raises); and no history of operations ever breaks "ids are positions". -/
+theorem C03_set_then_get_reads_the_value (st : Store) (s k : Nat) (v : Int) (hid : st.IdsArePositions) :
+    ((∀ i ∈ st.get s, i < st.pop.length) →
+      get (setAttr st s k v) s [k] .error = .ok ((st.get s).map fun _ => [some v])) ∧
+    (∀ ops : List SOp, (ops.foldl applyOp st).IdsArePositions) := by
+  constructor
+  · intro hmem
+    have hget : (setAttr st s k v).get s = st.get s := rfl
+    have key : ∀ i ∈ st.get s, ((setAttr st s k v).agent i).attr k = some v := by
+      intro i hi
+      have hlt := hmem i hi
+      have hp : st.pop[i]? = some st.pop[i] := List.getElem?_eq_getElem hlt
+      have hidi := hid i _ hp
+      simp only [Store.agent, setAttr, List.getElem?_map, hp, Option.map_some, Option.getD_some, hidi, hi, if_true]
+      simp [Agent.setAttr, Agent.attr]
+    have hall : allPresent (setAttr st s k v) s [k] = true := by
+      simp only [allPresent, hget, List.all_eq_true]
+      intro i hi
+      simp [key i hi]
+    simp only [get, hall, if_true, rowsOf, hget]
+    congr 1
+    apply List.map_congr_left
+    intro i hi
+    simp [key i hi]
+  · intro ops
+    induction ops generalizing st with
+    | nil => exact hid
+    | cons op ops ih =>
+      rw [List.foldl_cons]
+      apply ih
+      unfold Store.IdsArePositions
+      intro i a ha
+      have h1 : ((applyOp st op).pop.map (·.id))[i]? = some a.id := by simp [ha]
+      rw [applyOp_pop_ids] at h1
+      simp only [List.getElem?_map] at h1
+      cases hp : st.pop[i]? with
+      | none => simp [hp] at h1
+      | some b =>
+        simp [hp] at h1
+        rw [← h1]; exact hid i b hp
+
+/-- **`agentset[i]` and `agentset[i:j]` are Python's indexing of the ordered member list**: a non-negative index reads that
+    position; `-k` reads position `len - k` (`-1` is the last member) and raises `IndexError` beyond `-len`; a slice with bounds
+    inside the list is `take`/`drop`, an upper bound past the end stops at the end, and a negative bound `-k` denotes
+    `len - k` (clamped at the start). -/
+theorem C03_getitem_negative_indices_and_slices {α : Type} (l : List α) :
+    (∀ i : Nat, pyIndex l (i : Int) = l[i]?) ∧
+    (∀ k : Nat, 1 ≤ k → k ≤ l.length → pyIndex l (-(k : Int)) = l[l.length - k]?) ∧
+    (∀ k : Nat, l.length < k → pyIndex l (-(k : Int)) = none) ∧
+    (∀ a b : Nat, pySlice l (a : Int) (b : Int) = (l.drop (min a l.length)).take (min b l.length - min a l.length)) ∧
+    (∀ (k : Nat) (j : Int), 1 ≤ k → pySlice l (-(k : Int)) j = pySlice l ((l.length - k : Nat) : Int) j) ∧
+    (∀ (i : Int) (k : Nat), 1 ≤ k → pySlice l i (-(k : Int)) = pySlice l i ((l.length - k : Nat) : Int)) := by
+  refine ⟨fun i => by simp [pyIndex], fun k h1 h2 => ?_, fun k h => ?_, fun a b => ?_, fun k j h1 => ?_, fun i k h1 => ?_⟩
+  · have hneg : ¬ (0 : Int) ≤ -(k : Int) := by omega
+    have hle : -(-(k : Int)) ≤ (l.length : Int) := by omega
+    simp only [pyIndex, hneg, if_false, hle, if_true]
+    simp
+  · have hneg : ¬ (0 : Int) ≤ -(k : Int) := by omega
+    have hle : ¬ -(-(k : Int)) ≤ (l.length : Int) := by omega
+    simp only [pyIndex, hneg, if_false, hle]
+  · have ha : ¬ ((a : Int) < 0) := by omega
+    have hb : ¬ ((b : Int) < 0) := by omega
+    simp [pySlice, pyClamp, ha, hb]
+  · have hk : (-(k : Int)) < 0 := by omega
+    have hc : pyClamp l.length (-(k : Int)) = pyClamp l.length ((l.length - k : Nat) : Int) := by
+      have h2 : ¬ (((l.length - k : Nat) : Int) < 0) := by omega
+      simp only [pyClamp, hk, if_true, h2, if_false]
+      omega
+    simp only [pySlice, hc]
+  · have hk : (-(k : Int)) < 0 := by omega
+    have hc : pyClamp l.length (-(k : Int)) = pyClamp l.length ((l.length - k : Nat) : Int) := by
+      have h2 : ¬ (((l.length - k : Nat) : Int) < 0) := by omega
+      simp only [pyClamp, hk, if_true, h2, if_false]
+      omega
+    simp only [pySlice, hc]
+
+example : pyIndex [10, 20, 30] (-1) = some 30 ∧ pyIndex [10, 20, 30] (-4) = none ∧ pySlice [10, 20, 30, 40] 1 (-1) = [20, 30] ∧
+    pySlice [10, 20, 30, 40] (-3) 9 = [20, 30, 40] := by decide
+
+/-- **`agg` with `min` / `max`, and the error arms of `agg` and `map`**: on a non-empty set `agg(k, min)` (`max`) returns a value
+    that some member has and that is ≤ (≥) every member's value; on an empty set they raise `ValueError` (Python's `min([])`);
+    if some member lacks the attribute, every aggregation and every attribute-reading `map` raises `AttributeError`; calling a
+    method name no agent has raises `AttributeError` exactly when the set is non-empty (an empty set maps to `[]`). -/
+theorem C03_agg_min_max_and_error_arms (st : Store) (s k : Nat) :
+    (∀ vs, (st.get s).mapM (fun i => (st.agent i).attr k) = some vs →
+      (vs = [] → agg st s k .min = .error .value ∧ agg st s k .max = .error .value) ∧
+      (vs ≠ [] → ∃ lo hi, agg st s k .min = .ok lo ∧ agg st s k .max = .ok hi ∧ lo ∈ vs ∧ hi ∈ vs ∧
+        ∀ x ∈ vs, lo ≤ x ∧ x ≤ hi)) ∧
+    ((st.get s).mapM (fun i => (st.agent i).attr k) = none →
+      (∀ f, agg st s k f = .error .attr) ∧ map st s (.dbl k) = .error .attr ∧ ∀ d, map st s (.plus k d) = .error .attr) ∧
+    (map st s .nosuch = .ok [] ↔ st.get s = []) ∧ (st.get s ≠ [] → map st s .nosuch = .error .attr) := by
+  refine ⟨fun vs h => ⟨fun he => ?_, fun hne => ?_⟩, fun h => ⟨fun f => ?_, ?_, fun d => ?_⟩, ?_, fun hne => ?_⟩
+  · subst he; simp [agg, h]
+  · cases vs with
+    | nil => exact absurd rfl hne
+    | cons v rest =>
+      obtain ⟨m1, m2⟩ := foldl_min_spec v rest
+      obtain ⟨x1, x2⟩ := foldl_max_spec v rest
+      exact ⟨rest.foldl min v, rest.foldl max v, by simp [agg, h], by simp [agg, h], m1, x1, fun x hx => ⟨m2 x hx, x2 x hx⟩⟩
+  · cases f <;> simp [agg, h]
+  · simp [map, h]
+  · simp [map, h]
+  · by_cases he : st.get s = [] <;> simp [map, he]
+  · simp [map, hne]
+
+example : agg { pop := [⟨0, 0, [(0, 4)]⟩, ⟨1, 0, [(0, -2)]⟩, ⟨2, 0, [(0, 7)]⟩], sets := [[0, 1, 2], []], rng := ⟨[]⟩ } 0 0 .min = .ok (-2) ∧
+    agg { pop := [⟨0, 0, [(0, 4)]⟩, ⟨1, 0, [(0, -2)]⟩, ⟨2, 0, [(0, 7)]⟩], sets := [[0, 1, 2], []], rng := ⟨[]⟩ } 0 0 .max = .ok 7 ∧
+    agg { pop := [⟨0, 0, [(0, 4)]⟩, ⟨1, 0, [(0, -2)]⟩, ⟨2, 0, [(0, 7)]⟩], sets := [[0, 1, 2], []], rng := ⟨[]⟩ } 1 0 .min = .error .value :=
+  ⟨by rfl, by rfl, by rfl⟩
+
 /-! ### non-vacuity: a concrete store exercising the statements above -/
 
 private def demo : Store :=
@@ -413,6 +615,12 @@ example : (sort demo 0 (.attr 0) false false).toOption.map (fun r => r.1.get r.2
     List.MergeSort.Internal.splitInTwo, Except.toOption]
 /-- `select(agent_type=T0, at_most=2)`: T0 and its subclasses T1, T2 qualify, the first two are taken -/
 example : (select demo 0 none (some 0) (.count 2) false).1.get 1 = [0, 1] := by decide
+/-- `select(lambda a: a.x >= 2, agent_type=T1)`: of the members with x ≥ 2 (0, 2, 4) only agent 2 (class T2 ⊂ T1) qualifies -/
+example : selectIds demo [0, 1, 2, 3, 4] (some (.ge 0 2)) (some 1) .inf = [2] := by decide
+example : dedup [3, 1, 3, 2, 1] = [3, 1, 2] := by decide
+example : get (setAttr demo 0 1 9) 0 [1] .error = .ok [[some 9], [some 9], [some 9], [some 9], [some 9]] ∧
+    get demo 0 [1] .error = .error .attr := ⟨by rfl, by rfl⟩
+example : ((setAttr demo 0 1 9).pop[1]?.map (·.attrs)) = some [(1, 9), (0, 1)] := by decide
 example : (shuffle demo 0 false).1.get 1 = [0, 2, 4, 1, 3] ∧ (shuffle demo 0 false).1.get 0 = [0, 1, 2, 3, 4] := by decide
 example : (group demo 0 (.attr 0) false).toOption.map (·.2) = some [(2, [0, 2, 4]), (1, [1, 3])] := by decide
 example : sort demo 0 (.attr 1) true true = .error .attr ∧ remove demo 0 7 = .error .key := ⟨rfl, rfl⟩
